@@ -1,7 +1,8 @@
 # C16 -- declarative codec: the laws of every building block (bit-field
 # pair, integer pair, length exactness, error discipline, presence/length
 # protocol, ownership of the decoded sequence, closure of sequences over items
-# of different lengths) and of compositions of them.
+# of different lengths, independence of a definition object from the messages
+# it processed before) and of compositions of them.
 #
 # Two layers:
 #  (1) SEMANTIC rules (decisive).  codec.py is folded by the checker's own
@@ -47,12 +48,19 @@ EXPLANATION = (
     "eleven nested-length cases, sequences whose items differ in length (five item definitions with optional / callback-length parts, every "
     "presence pattern of 1..4 items incl. the optional part absent in the last item; stand-alone, as flexible tail and behind a length "
     "callback; truncations), error wrapping for every exception class a field can raise (also below nested envelopes and sequence "
-    "items), repeated decodes of one Sequence/envelope (result ownership), and the toolkit's own definitions (trxd_proto) - and every "
+    "items), repeated decodes of one Sequence/envelope (result ownership), message sequences through ONE definition object (eight "
+    "definitions with callback-length spares / buffers / nested envelopes / sequences and optional fields, 4..7 messages each whose "
+    "variable parts differ, encoded, decoded and re-encoded in order, in reverse and interleaved; single field objects used again and "
+    "again; two objects of one class used alternately), and the toolkit's own definitions (trxd_proto) - and every "
     "outcome (octets, values, octets consumed, error class, non-termination) is compared with a reference model of the documented "
     "behaviour. Symbolic layer (proof attempts for all inputs on the known shape): path outcomes of every method as exprnf terms, complete "
     "decision tables, the linear rewrite ((x*m+o)-o)//m -> x, the class table through the MRO, handler stacks, the origin of the list "
     "Sequence.from_bytes returns. A symbolic proof that does not close is never a verdict by itself: the law is then decided by the "
-    "evaluation.")
+    "evaluation. State kept between messages (R9) is additionally decided on the code: per-message methods through the call graph of the "
+    "class hierarchy, store sites of attributes of self / in-place changes, reads no store of the same call comes before, abstract "
+    "evaluation of the loop-free paths (dependence on the call's parameters / on kept attributes) and three-valued evaluation of the guards "
+    "under the state a first call leaves: an unkeyed memo of a message-dependent value is a violation by itself, nothing kept holds by "
+    "itself, everything else is decided by the message-sequence witnesses.")
 ASSUMPTIONS = [
     "the universal over all compositions is decided on the listed witness compositions (and, where the symbolic proofs close, for all inputs of each block); not for every program built from the blocks",
     "the concrete evaluator implements the semantics of the Python subset codec.py uses (checked against the host interpreter on the checker's own test snippets); int.from_bytes / int.to_bytes / slicing / bytes.join / struct are the host's",
@@ -60,6 +68,10 @@ ASSUMPTIONS = [
     "a sequence item that consumes no octets is outside the domain (the pinned code does not terminate on it)",
     "R6 (symbolic): a default-argument object / class attribute / module-level object that no toolkit code mentions outside Sequence.from_bytes is not emptied by reflection",
     "ceil(sum/8) (symbolic): tabulated exhaustively over bit sums 0..64",
+    "R9 (code analysis): a value computed from the parameters of a per-message method (the message dictionary / octets, also through the "
+    "get_pres / get_len / get_val callbacks called with them) differs between some two messages of some definition - the property "
+    "quantifies over arbitrary presence / length callbacks; state kept outside the definition objects' attributes, containers and "
+    "module / class-level objects written by codec.py is not looked for",
 ]
 
 F = rel("codec")
@@ -1857,6 +1869,652 @@ def r6_ownership(L, repo, R="C16.R6", key=R6_KEY):
         L.ob(R, F, fn, key, "a list created during the call (or passed in by the caller of this call)", text,
              kind in ("fresh", "caller"), o.node.lineno if o.node is not None else fd.lineno)
     L.floor(R, "return paths of Sequence.from_bytes", n, 1)
+
+
+# ====================================================================== R9 (state kept between messages)
+#
+# A protocol definition is built once (class-level STRUCT tuples of field objects) and every message of a process is
+# encoded / decoded through the same objects; the items of one sequence go through one item definition.  The
+# round-trip and length-exactness clauses therefore hold for all messages only if what a definition object does
+# with a message does not depend on the messages it processed before.  The witness group `w_reuse` decides that by
+# evaluation on message sequences.  The rule below decides it on the code: which methods that process a message
+# leave something on the definition object, and whether a later call can read it back.
+
+R9_CONSTRUCTION = ("__init__", "__new__", "__init_subclass__", "__set_name__", "__class_getitem__", "__post_init__")
+R9_VALUE_STATE = {"Envelope": ("c",)}      # the documented value dictionary: input of to_bytes(), output of from_bytes()
+R9_MUTATORS = {"append", "extend", "insert", "remove", "pop", "popitem", "clear", "sort", "reverse", "update", "setdefault", "add",
+               "discard", "appendleft", "popleft", "move_to_end", "__setitem__", "__delitem__"}
+R9_EVALUATED = ("Codec", "Field", "Buf", "Spare", "Uint", "BitFieldSet", "BitField", "BitField.Spare", "Envelope", "Envelope.F",
+                "Sequence", "Sequence.F")      # classes whose objects the message-sequence witnesses (w_reuse) use repeatedly
+R9_NONNULL_CALLS = ("bytes", "bytearray", "int", "len", "tuple", "list", "dict", "str", "bool", "float", "frozenset", "set", "sum", "abs")
+_R9_UNSET = object()
+R9_KEY = ("what the method does with a message does not depend on earlier messages: no attribute of the definition object that one call "
+          "stores from the message is handed out by a later call without being recomputed or compared with what it depends on "
+          "(the value dictionary `c` of an envelope excepted)")
+
+
+class _AV:
+    """abstract value: pt - depends on the message of THIS call (a parameter); sd - attributes of self read before this
+    call stored them (what an earlier call left there); unk - depends on something the rule does not follow; alias -
+    the value IS the kept attribute"""
+    __slots__ = ("pt", "sd", "unk", "alias")
+
+    def __init__(self, pt=False, sd=frozenset(), unk=False, alias=None):
+        self.pt, self.sd, self.unk, self.alias = pt, frozenset(sd), unk, alias
+
+    def join(self, o):
+        return _AV(self.pt or o.pt, self.sd | o.sd, self.unk or o.unk)
+
+
+def _r9_classes(mod):
+    out = []
+
+    def rec(ci, q):
+        out.append((q, ci))
+        for n, c in ci.inner.items():
+            rec(c, q + "." + n)
+    for n, ci in mod.classes.items():
+        rec(ci, n)
+    return out
+
+
+def _r9_self(fd):
+    """name of the instance parameter of a method (None: static / class method, no parameters)"""
+    for d in fd.decorator_list:
+        if canon(d) in ("staticmethod", "classmethod"):
+            return None
+    a = list(getattr(fd.args, "posonlyargs", [])) + list(fd.args.args)
+    return a[0].arg if a else None
+
+
+def _r9_enclosing(node, stop):
+    """innermost enclosing function / lambda of a node below `stop` (None: directly in `stop`)"""
+    cur = getattr(node, "_parent", None)
+    while cur is not None and cur is not stop:
+        if isinstance(cur, (ast.FunctionDef, ast.AsyncFunctionDef, ast.Lambda)):
+            return cur
+        cur = getattr(cur, "_parent", None)
+    return None
+
+
+def _r9_stmt(node, fd):
+    cur = node
+    while cur is not None and cur is not fd:
+        if isinstance(cur, ast.stmt):
+            return cur
+        cur = getattr(cur, "_parent", None)
+    return None
+
+
+def _r9_root_attr(e, selfname):
+    """the attribute A when e is reached from `self.A` through subscripts / attributes (self.A, self.A[k], self.A.x[k])"""
+    cur = e
+    while isinstance(cur, (ast.Subscript, ast.Attribute)):
+        if isinstance(cur, ast.Attribute) and isinstance(cur.value, ast.Name) and cur.value.id == selfname:
+            return cur.attr
+        cur = cur.value
+    return None
+
+
+def _r9_locals(fd):
+    names = set()
+    a = fd.args
+    for p in list(getattr(a, "posonlyargs", [])) + list(a.args) + list(a.kwonlyargs) + [x for x in (a.vararg, a.kwarg) if x is not None]:
+        names.add(p.arg)
+    for n in ast.walk(fd):
+        if isinstance(n, ast.Name) and isinstance(n.ctx, (ast.Store, ast.Del)):
+            names.add(n.id)
+        elif isinstance(n, (ast.FunctionDef, ast.ClassDef)) and n is not fd:
+            names.add(n.name)
+        elif isinstance(n, ast.ExceptHandler) and n.name:
+            names.add(n.name)
+        elif isinstance(n, ast.arg):
+            names.add(n.arg)
+        elif isinstance(n, (ast.Import, ast.ImportFrom)):
+            for al in n.names:
+                names.add((al.asname or al.name).split(".")[0])
+    return names
+
+
+class _R9Method:
+    def __init__(self, qual, ci, fd):
+        self.qual, self.ci, self.fd = qual, ci, fd
+        self.name = "%s.%s" % (qual, fd.name)
+        self.selfname = _r9_self(fd)
+        self.per_message = True
+        self.plain = []        # (attr, stmt, value expr | None, is augmented, deferred)
+        self.other = []        # (attr | None, text) - state written in a way the rule does not follow
+        self.refs = set()      # attribute names referenced (any receiver): call graph by name
+        self.deferred_refs = set()
+
+
+def _r9_scan(mt):
+    """state a method writes on the definition object (or anywhere else that outlives the call)"""
+    fd, sn = mt.fd, mt.selfname
+    loc = _r9_locals(fd)
+    aliases = {}
+    for n in ast.walk(fd):
+        if isinstance(n, ast.Assign) and len(n.targets) == 1 and isinstance(n.targets[0], ast.Name) and sn is not None:
+            v = n.value
+            if isinstance(v, ast.Attribute) and isinstance(v.value, ast.Name) and v.value.id == sn:
+                aliases[n.targets[0].id] = v.attr
+    for n in ast.walk(fd):
+        deferred = _r9_enclosing(n, fd) is not None
+        if isinstance(n, ast.Attribute) and isinstance(n.ctx, ast.Load):
+            (mt.deferred_refs if deferred else mt.refs).add(n.attr)
+        if isinstance(n, ast.Global) or isinstance(n, ast.Nonlocal):
+            mt.other.append((None, "`%s`" % canon(n), deferred))
+        if isinstance(n, ast.Attribute) and isinstance(n.ctx, (ast.Store, ast.Del)):
+            st = _r9_stmt(n, fd)
+            if sn is not None and isinstance(n.value, ast.Name) and n.value.id == sn:
+                val, aug = None, False
+                if isinstance(st, ast.Assign) and any(t is n for t in st.targets):
+                    val = st.value
+                elif isinstance(st, ast.AnnAssign) and st.target is n:
+                    val = st.value
+                elif isinstance(st, ast.AugAssign) and st.target is n:
+                    val, aug = st.value, True
+                elif isinstance(st, ast.Delete):
+                    val = None
+                else:
+                    mt.other.append((n.attr, "`%s` bound by `%s`" % (canon(n), canon(st).split("\n")[0][:60]), deferred))
+                    continue
+                mt.plain.append((n.attr, st, val, aug, deferred))
+            else:
+                root = _r9_root_attr(n.value, sn) if sn is not None else None
+                base = n.value
+                while isinstance(base, (ast.Subscript, ast.Attribute)):
+                    base = base.value
+                if root is None and isinstance(base, ast.Name) and base.id in aliases:
+                    root = aliases[base.id]
+                if root is None and isinstance(base, ast.Name) and base.id != sn and any(isinstance(p, ast.arg) and p.arg == base.id for p in ast.walk(fd.args)):
+                    continue        # attribute of a parameter: the message / the caller's object
+                mt.other.append((root, "attribute store `%s = ...`%s" % (canon(n), " on an object kept in `self.%s`" % root if root else
+                                                                          " on an object that outlives the call"), deferred))
+        elif isinstance(n, ast.Subscript) and isinstance(n.ctx, (ast.Store, ast.Del)):
+            root = _r9_root_attr(n.value, sn) if sn is not None else None
+            base = n.value
+            while isinstance(base, (ast.Subscript, ast.Attribute)):
+                base = base.value
+            if root is None and isinstance(base, ast.Name) and base.id in aliases:
+                root = aliases[base.id]
+            if root is not None:
+                mt.other.append((root, "`%s[...]` changed in place" % canon(n.value), deferred))
+            elif isinstance(base, ast.Name) and base.id not in loc:
+                mt.other.append((None, "module-level / class-level object `%s` changed in place" % base.id, deferred))
+            elif isinstance(base, ast.Call) and canon(base.func) == "vars":
+                mt.other.append((None, "`%s` changed in place" % canon(n.value), deferred))
+        elif isinstance(n, ast.Call):
+            fn = canon(n.func)
+            if fn in ("setattr", "delattr", "object.__setattr__", "object.__delattr__") or fn.endswith((".__setattr__", ".__delattr__")):
+                a1 = n.args[1] if fn in ("setattr", "delattr", "object.__setattr__", "object.__delattr__") and len(n.args) > 1 else \
+                    (n.args[0] if n.args else None)
+                mt.other.append((a1.value if isinstance(a1, ast.Constant) and isinstance(a1.value, str) else None, "`%s`" % canon(n)[:70], deferred))
+            elif isinstance(n.func, ast.Attribute) and n.func.attr in R9_MUTATORS:
+                recv = n.func.value
+                root = _r9_root_attr(recv, sn) if sn is not None else None
+                base = recv
+                while isinstance(base, (ast.Subscript, ast.Attribute)):
+                    base = base.value
+                if root is None and isinstance(base, ast.Name) and base.id in aliases:
+                    root = aliases[base.id]
+                if root is not None:
+                    mt.other.append((root, "`%s.%s(...)` changes the object kept in `self.%s` in place" % (canon(recv), n.func.attr, root), deferred))
+                elif isinstance(base, ast.Name) and base.id not in loc and base.id != sn:
+                    mt.other.append((None, "module-level / class-level object `%s` changed in place by .%s()" % (base.id, n.func.attr), deferred))
+        if sn is not None and isinstance(n, ast.Attribute) and n.attr == "__dict__" and isinstance(n.value, ast.Name) and n.value.id == sn:
+            mt.other.append((None, "`self.__dict__` used", deferred))
+
+
+def _r9_value_state(repo, ci):
+    out = set()
+    for c in repo.mro(ci):
+        out |= set(R9_VALUE_STATE.get(c.name, ()))
+    return out
+
+
+def _r9_nonnull(e):
+    """True when evaluating e cannot yield None (arithmetic, displays, constants, conversions)"""
+    if isinstance(e, ast.Constant):
+        return e.value is not None
+    if isinstance(e, (ast.BinOp, ast.Tuple, ast.List, ast.Dict, ast.Set, ast.JoinedStr, ast.ListComp, ast.DictComp, ast.SetComp, ast.Compare)):
+        return True
+    if isinstance(e, ast.UnaryOp):
+        return True
+    if isinstance(e, ast.IfExp):
+        return _r9_nonnull(e.body) and _r9_nonnull(e.orelse)
+    if isinstance(e, ast.Call) and isinstance(e.func, ast.Name) and e.func.id in R9_NONNULL_CALLS:
+        return True
+    return False
+
+
+class _R9Walk:
+    """abstract evaluation of one method along one path of its CFG"""
+
+    def __init__(self, mt, state_attrs, touching, params_):
+        self.mt, self.S, self.touching, self.params = mt, state_attrs, touching, params_
+
+    def av(self, e, env, fresh, bound=()):
+        sn = self.mt.selfname
+        if e is None:
+            return _AV()
+        if isinstance(e, ast.Name):
+            if e.id == sn or e.id in bound:
+                return _AV()
+            if e.id in env:
+                return env[e.id]
+            if e.id in self.params:
+                return _AV(pt=True)
+            return _AV()
+        if isinstance(e, ast.Attribute) and isinstance(e.value, ast.Name) and e.value.id == sn:
+            if e.attr in fresh:
+                f = fresh[e.attr]
+                return _AV(f.pt, f.sd, f.unk)
+            if e.attr in self.S:
+                return _AV(sd={e.attr}, alias=e.attr)
+            if e.attr in self.touching:
+                return _AV(unk=True)
+            return _AV()
+        if isinstance(e, (ast.Lambda, ast.FunctionDef)):
+            return _AV(unk=True)
+        if isinstance(e, (ast.ListComp, ast.SetComp, ast.GeneratorExp, ast.DictComp)):
+            out = _AV()
+            b = set(bound)
+            for g in e.generators:
+                out = out.join(self.av(g.iter, env, fresh, b))
+                b |= {x.id for x in ast.walk(g.target) if isinstance(x, ast.Name)}
+                for c in g.ifs:
+                    out = out.join(self.av(c, env, fresh, b))
+            # comprehension variables range over the iterable: what they carry is what the iterable carries
+            for part in ([e.key, e.value] if isinstance(e, ast.DictComp) else [e.elt]):
+                out = out.join(self.av(part, env, fresh, b))
+            return out
+        if isinstance(e, ast.Call):
+            fn = canon(e.func)
+            if fn in ("hasattr", "getattr") and len(e.args) >= 2 and isinstance(e.args[0], ast.Name) and e.args[0].id == sn:
+                a = e.args[1]
+                if isinstance(a, ast.Constant) and isinstance(a.value, str):
+                    if a.value in fresh:
+                        return _AV(fresh[a.value].pt, fresh[a.value].sd, fresh[a.value].unk)
+                    out = _AV(sd={a.value}) if a.value in self.S else _AV()
+                else:
+                    out = _AV(unk=True)
+                for x in e.args[2:]:
+                    out = out.join(self.av(x, env, fresh, bound))
+                return out
+        out = _AV()
+        for c in ast.iter_child_nodes(e):
+            if isinstance(c, (ast.expr_context, ast.operator, ast.unaryop, ast.cmpop, ast.boolop)):
+                continue
+            if isinstance(c, ast.keyword):
+                c = c.value
+            out = out.join(self.av(c, env, fresh, bound))
+        return out
+
+    def tri(self, test, env, fresh, attr, nonnull, const=_R9_UNSET):
+        """three-valued truth of a guard when `self.attr` holds: a value that is not None (nonnull) / the constant
+        `const` (the initial value); None: not decided"""
+        sn = self.mt.selfname
+
+        def is_ref(x):
+            if isinstance(x, ast.Attribute) and isinstance(x.value, ast.Name) and x.value.id == sn and x.attr == attr and attr not in fresh:
+                return True
+            return isinstance(x, ast.Name) and x.id in env and env[x.id].alias == attr
+
+        if isinstance(test, ast.BoolOp):
+            vals = [self.tri(v, env, fresh, attr, nonnull, const) for v in test.values]
+            if isinstance(test.op, ast.And):
+                return False if any(v is False for v in vals) else True if all(v is True for v in vals) else None
+            return True if any(v is True for v in vals) else False if all(v is False for v in vals) else None
+        if isinstance(test, ast.UnaryOp) and isinstance(test.op, ast.Not):
+            v = self.tri(test.operand, env, fresh, attr, nonnull, const)
+            return None if v is None else not v
+        if isinstance(test, ast.Compare) and len(test.ops) == 1:
+            a, b, op = test.left, test.comparators[0], test.ops[0]
+            if is_ref(b) and not is_ref(a):
+                a, b = b, a
+            if is_ref(a) and isinstance(b, ast.Constant) and b.value is None and isinstance(op, (ast.Is, ast.IsNot, ast.Eq, ast.NotEq)):
+                if const is not _R9_UNSET:
+                    isnone = const is None
+                elif nonnull:
+                    isnone = False
+                else:
+                    return None
+                return isnone if isinstance(op, (ast.Is, ast.Eq)) else not isnone
+            return None
+        if isinstance(test, ast.Call) and canon(test.func) == "hasattr" and len(test.args) == 2 and isinstance(test.args[0], ast.Name) \
+                and test.args[0].id == sn and isinstance(test.args[1], ast.Constant) and test.args[1].value == attr and attr not in fresh:
+            return True
+        if is_ref(test) and const is not _R9_UNSET and isinstance(const, (type(None), bool, int, bytes, str, tuple)):
+            return bool(const)
+        return None
+
+    def paths(self, cfg, limit=400):
+        """loop-free paths entry -> normal exit as lists of (node, label taken)"""
+        out, n = [], [0]
+
+        def rec(node, acc, seen):
+            if n[0] > limit:
+                return
+            if node is cfg.exit:
+                n[0] += 1
+                out.append(list(acc))
+                return
+            if node is cfg.rexit or node.id in seen:
+                return
+            if node.kind in ("loop", "handler") or (node.kind == "cond" and isinstance(node.ast, ast.While)):
+                return
+            for (s, l) in node.succ:
+                if l == "exc":
+                    continue
+                acc.append((node, l))
+                rec(s, acc, seen | {node.id})
+                acc.pop()
+        rec(cfg.entry, [], frozenset())
+        return out if n[0] <= limit else []
+
+    def run_path(self, path, attr):
+        """-> (conds [(test, label, AV, env, fresh)], outputs [(AV, text)], first store of attr passed or None, clean)"""
+        sn = self.mt.selfname
+        env, fresh, exprs = {}, {}, {}
+        conds, outs, stores = [], [], []
+        clean = True
+        for node, label in path:
+            st = node.ast
+            if node.kind == "entry" or st is None:
+                continue
+            if node.kind == "cond":
+                conds.append((st.test, label, self.av(st.test, env, fresh), dict(env), dict(fresh)))
+                continue
+            if node.kind == "with":
+                for it in st.items:
+                    v = self.av(it.context_expr, env, fresh)
+                    if it.optional_vars is not None:
+                        for x in ast.walk(it.optional_vars):
+                            if isinstance(x, ast.Name):
+                                env[x.id] = _AV(v.pt, v.sd, v.unk)
+                continue
+            if isinstance(st, (ast.FunctionDef, ast.AsyncFunctionDef, ast.ClassDef)):
+                env[st.name] = _AV(unk=True)
+                continue
+            if isinstance(st, ast.Return):
+                outs.append((self.av(st.value, env, fresh), "return %s" % (canon(st.value) if st.value is not None else "None")))
+                continue
+            if isinstance(st, ast.Assert):
+                v = self.av(st.test, env, fresh)
+                if v.sd or v.unk:
+                    clean = False
+                continue
+            if isinstance(st, (ast.Assign, ast.AnnAssign, ast.AugAssign)):
+                value = st.value
+                v = self.av(value, env, fresh)
+                # the expression a plain local stands for on this path (temporaries are looked through)
+                resolved = exprs.get(value.id, value) if isinstance(value, ast.Name) else value
+                targets = st.targets if isinstance(st, ast.Assign) else [st.target]
+                for t in targets:
+                    if isinstance(t, ast.Name):
+                        if isinstance(st, ast.AugAssign):
+                            env[t.id] = self.av(t, env, fresh).join(v)
+                            exprs.pop(t.id, None)
+                        else:
+                            env[t.id] = v if len(targets) == 1 else _AV(v.pt, v.sd, v.unk)
+                            if resolved is not None:
+                                exprs[t.id] = resolved
+                    elif isinstance(t, ast.Attribute) and isinstance(t.value, ast.Name) and t.value.id == sn:
+                        if isinstance(st, ast.AugAssign):
+                            old = self.av(ast.Attribute(value=t.value, attr=t.attr, ctx=ast.Load()), env, fresh)
+                            v2 = old.join(v)
+                        else:
+                            v2 = _AV(v.pt, v.sd, v.unk)
+                        if t.attr == attr:
+                            stores.append((st, v2, None if isinstance(st, ast.AugAssign) else resolved))
+                        fresh[t.attr] = v2
+                    elif isinstance(t, (ast.Tuple, ast.List, ast.Starred)):
+                        for x in ast.walk(t):
+                            if isinstance(x, ast.Name) and isinstance(x.ctx, ast.Store):
+                                env[x.id] = _AV(v.pt, v.sd, v.unk)
+                            elif isinstance(x, ast.Attribute) and isinstance(x.ctx, ast.Store):
+                                clean = False
+                    elif isinstance(t, ast.Subscript):
+                        base = t.value
+                        while isinstance(base, (ast.Subscript, ast.Attribute)):
+                            base = base.value
+                        if isinstance(base, ast.Name) and base.id in self.params and base.id != sn:
+                            outs.append((v.join(self.av(t.slice, env, fresh)), "%s = %s" % (canon(t), canon(value))))
+                        elif isinstance(base, ast.Name) and base.id in env:
+                            env[base.id] = env[base.id].join(v)
+                    else:
+                        clean = False
+                continue
+            if isinstance(st, ast.Delete):
+                for t in st.targets:
+                    if isinstance(t, ast.Attribute) and isinstance(t.value, ast.Name) and t.value.id == sn:
+                        clean = False
+                continue
+            if isinstance(st, ast.Expr):
+                v = self.av(st.value, env, fresh)
+                if v.unk:
+                    clean = False
+                continue
+            if isinstance(st, (ast.Pass, ast.Import, ast.ImportFrom, ast.Raise, ast.Break, ast.Continue)):
+                continue
+            clean = False
+        return conds, outs, stores, clean
+
+
+def _r9_prove(mt, cfg, walk, attr, init_const):
+    """a pair of calls of `mt` that proves the kept attribute wrong: the first stores into self.attr a value that depends
+    on its message, the second returns what it finds there without looking at its own message.  -> text | None"""
+    paths = walk.paths(cfg)
+    first = None
+    for p in paths:
+        conds, outs, stores, clean = walk.run_path(p, attr)
+        if not clean or not stores:
+            continue
+        st, v, sexpr = stores[-1]
+        if not v.pt or v.unk or v.sd or sexpr is None or not _r9_nonnull(sexpr):
+            continue
+        ok = True
+        for test, label, cv, env, fresh in conds:
+            if cv.unk:
+                ok = False
+            elif cv.sd:
+                if cv.sd != {attr} or cv.pt or walk.tri(test, env, fresh, attr, False, init_const) is not label:
+                    ok = False
+            elif not cv.pt:
+                ok = False      # a condition on the definition alone: which definitions take the path is not followed
+        if ok and (first is None or len(p) < len(first[0])):
+            first = (p, st, conds, sexpr)
+    if first is None:
+        return None
+    for p in paths:
+        conds, outs, stores, clean = walk.run_path(p, attr)
+        if not clean or stores or not conds:
+            continue
+        if not any(o.sd == {attr} and not o.pt and not o.unk for o, _t in outs) or any(o.pt or o.unk or (o.sd - {attr}) for o, _t in outs):
+            continue
+        ok = True
+        for test, label, cv, env, fresh in conds:
+            if cv.unk or cv.pt or cv.sd != {attr} or walk.tri(test, env, fresh, attr, True) is not label:
+                ok = False
+        if not ok:
+            continue
+        st = first[1]
+        guard1 = " and ".join(("%s" if l else "not (%s)") % canon(t) for t, l, _c, _e, _f in first[2]) or "always"
+        guard2 = " and ".join(("%s" if l else "not (%s)") % canon(t) for t, l, _c, _e, _f in conds)
+        out = [t for o, t in outs if o.sd == {attr}][0]
+        return ("`%s = %s` (a value that depends on the message: %s; stored when %s) is kept on the definition object; the next call, when %s, does `%s` "
+                "without recomputing it or comparing it with its own message" % (canon(st.targets[0] if isinstance(st, ast.Assign) else st.target),
+                                                                                 canon(first[3]), ", ".join(sorted(
+                    {x.id for x in ast.walk(first[3]) if isinstance(x, ast.Name) and x.id in walk.params})), guard1, guard2, out)), st
+    return None
+
+
+def r9_state(L, repo, verdict):
+    """C16.R9 (static part).  Clause decided: "decoding the encoding of in-range values returns those values,
+    re-encoding a decoded message reproduces the canonical octets, and decoding consumes exactly the octets the
+    definition declares" - for every message a definition processes, not only the first one.  Definitions are
+    built once and used for all messages, so this needs: what a method that processes a message (everything but the
+    constructors and what only they call) stores on the definition object from the message is never handed out by a
+    later call that does not look at its own message.  Decided on resolved facts: the call graph of the class
+    hierarchy (which methods run per message), store sites of attributes of self (assignment, augmented
+    assignment, setattr, in-place changes of containers kept in attributes, module/class-level objects), reads
+    that a store of the same call does not dominate (CFG reachability avoiding the store nodes), an abstract
+    evaluation of each loop-free path (does a value depend on this call's parameters / on kept attributes), and a
+    three-valued evaluation of the guards under the state the first call leaves.
+      - no attribute stored per message is read before it is rewritten: the method keeps no state (holds);
+      - a first call stores a message-dependent, non-None value and a second call returns the attribute on a path
+        whose guards are all decided by the attribute itself (`is None` ...) and whose result mentions no parameter:
+        the second message gets the first message's octets - VIOLATION, with the store and the read;
+      - anything else (keyed memo, counters, containers, helpers): not decided here - the message-sequence
+        witnesses (w_reuse) decide it; if they could not be evaluated, or the class is not among the evaluated
+        ones, there is no verdict."""
+    R = "C16.R9"
+    V = verdict[0] if isinstance(verdict[0], Verdict) else None
+    mod = repo.mod("codec")
+    from pyfront import CFG
+    classes = _r9_classes(mod)
+    methods = []
+    for q, ci in classes:
+        for fd in ci.methods.values():
+            methods.append(_R9Method(q, ci, fd))
+    for mt in methods:
+        _r9_scan(mt)
+    # which methods run per message: everything except constructors and what only constructors reach (by name)
+    cons = {mt.fd.name for mt in methods if mt.fd.name in R9_CONSTRUCTION}
+    changed = True
+    while changed:
+        changed = False
+        for name in {mt.fd.name for mt in methods} - cons:
+            users = [m2 for m2 in methods if name in m2.refs and m2.fd.name != name]
+            deferred_users = [m2 for m2 in methods if name in m2.deferred_refs]
+            if users and not deferred_users and all(m2.fd.name in cons for m2 in users):
+                cons.add(name)
+                changed = True
+    for mt in methods:
+        mt.per_message = mt.fd.name not in cons
+    related = lambda a, b: a is b or a in repo.mro(b) or b in repo.mro(a)
+    n = 0
+    undecided = []         # (method, attr | None, text, line)
+    for mt in methods:
+        # callbacks defined inside constructors (lambdas / nested functions) run per message as well
+        scope = [mt] if mt.per_message else []
+        exempt = _r9_value_state(repo, mt.ci)
+        L.fn(F, mt.name)
+        if mt.selfname is None:
+            continue
+        plain = [p for p in mt.plain if p[0] not in exempt and (mt.per_message or p[4])]
+        other = [o for o in mt.other if (o[0] not in exempt or o[0] is None) and (mt.per_message or o[2])]
+        if not mt.per_message and not plain and not other:
+            continue
+        n += 1
+        found = []
+        bad = []
+        for a_, text, _d in other:
+            undecided.append((mt, a_, text, mt.fd.lineno))
+            found.append(text)
+        for attr in sorted({p[0] for p in plain}):
+            stores = [p for p in plain if p[0] == attr]
+            fam = [m2 for m2 in methods if related(m2.ci, mt.ci) and m2.selfname is not None]
+            if any(p[4] for p in stores):
+                undecided.append((mt, attr, "`self.%s` stored inside a nested function / lambda" % attr, stores[0][1].lineno))
+                found.append("self.%s stored in a nested function" % attr)
+                continue
+            # reads of the attribute a store of the same call does not come before
+            stale = []
+            for m2 in fam:
+                sn2 = m2.selfname
+                loads = [x for x in ast.walk(m2.fd) if isinstance(x, ast.Attribute) and x.attr == attr and isinstance(x.value, ast.Name)
+                         and x.value.id == sn2 and (isinstance(x.ctx, ast.Load) or isinstance(getattr(x, "_parent", None), ast.AugAssign))]
+                loads += [x for x in ast.walk(m2.fd) if isinstance(x, ast.Call) and canon(x.func) in ("getattr", "hasattr") and len(x.args) >= 2
+                          and isinstance(x.args[1], ast.Constant) and x.args[1].value == attr]
+                if not loads:
+                    continue
+                if not m2.per_message:
+                    loads = [x for x in loads if _r9_enclosing(x, m2.fd) is not None]
+                    if not loads:
+                        continue
+                cfg2 = CFG(m2.fd)
+                kill = []
+                for p in m2.plain:
+                    if p[0] == attr and not p[4] and p[2] is not None:
+                        kn = cfg2.node_of(p[1])
+                        if not any(l == "exc" for _s, l in kn.succ):
+                            kill.append(kn)
+                for x in loads:
+                    if _r9_enclosing(x, m2.fd) is not None:
+                        stale.append((m2, x, True))
+                        continue
+                    xn = cfg2.node_of(x)
+                    if xn.id in cfg2.reach(cfg2.entry, skip_nodes=[k for k in kill if k.id != xn.id], labels_skip=()):
+                        stale.append((m2, x, False))
+            if not stale:
+                found.append("self.%s: rewritten by every call before it is read" % attr)
+                continue
+            # a proof that the pair is wrong: all stores and stale reads in this one method, no caller stores it
+            text = None
+            storers = {m2.name for m2 in fam if any(p[0] == attr for p in m2.plain) or any(o[0] == attr for o in m2.other)}
+            callers, work = set(), [mt.fd.name]
+            while work:
+                nm = work.pop()
+                for m2 in methods:
+                    if (nm in m2.refs or nm in m2.deferred_refs) and m2.name not in callers:
+                        callers.add(m2.name)
+                        work.append(m2.fd.name)
+            if storers == {mt.name} and all(m2 is mt and not d for m2, _x, d in stale) and not (callers & storers - {mt.name}) \
+                    and not any(o[0] is None for o in mt.other):
+                S = {p[0] for m2 in fam for p in m2.plain if m2.per_message or p[4]} | \
+                    {o[0] for m2 in fam for o in m2.other if o[0] and (m2.per_message or o[2])}
+                touching = {m2.fd.name for m2 in fam if m2.per_message and (m2.plain or m2.other or any(
+                    isinstance(x, ast.Attribute) and x.attr in S and isinstance(x.value, ast.Name) and x.value.id == m2.selfname for x in ast.walk(m2.fd)))}
+                pnames = {p.arg for p in ast.walk(mt.fd.args) if isinstance(p, ast.arg)} - {mt.selfname}
+                walk = _R9Walk(mt, S, touching - {mt.fd.name}, pnames)
+                init = _R9_UNSET
+                c_, v_ = repo.find_attr(mt.ci, attr)
+                if v_ is not None and isinstance(v_, ast.Constant):
+                    init = v_.value
+                ctor_sets = [p for m2 in fam if not m2.per_message for p in m2.plain if p[0] == attr]
+                if ctor_sets:
+                    init = ctor_sets[0][2].value if len(ctor_sets) == 1 and isinstance(ctor_sets[0][2], ast.Constant) else _R9_UNSET
+                if init is not _R9_UNSET:
+                    text = _r9_prove(mt, CFG(mt.fd), walk, attr, init)
+            if text is not None:
+                bad.append((attr, text[0], text[1].lineno))
+                found.append("self.%s: kept from one message to the next, not keyed" % attr)
+            else:
+                m2, x, _d = stale[0]
+                undecided.append((mt, attr, "`self.%s` stored by %s is read by a later call of %s (`%s`)" % (
+                    attr, mt.name, m2.name, canon(_r9_stmt(x, m2.fd) or x).split("\n")[0][:70]), stores[0][1].lineno))
+                found.append("self.%s: kept from one message to the next" % attr)
+        L.ob(R, F, mt.name, R9_KEY, "nothing kept, or every kept value keyed by what it depends on",
+             "nothing kept" if not found else "; ".join(found), not bad, mt.fd.lineno)
+        for attr, text, line in bad:
+            L.ob(R, F, mt.name, "`self.%s`: a value computed from one message is not handed out for the next message as it is" % attr,
+                 "recomputed for every message, or compared with the values it was computed from before it is used again", text, False, line)
+    L.floor(R, "methods that process messages examined for state kept on the definition object", n, 25)
+    # what the code analysis leaves open is decided by the message-sequence witnesses
+    if undecided:
+        r9 = [f for f in (V.fams if V is not None else []) if f.rule == R]
+        failed = [f for f in r9 if f.bad is not None]
+        open_ = V is None or V.error or not r9 or any(f.unknown is not None and f.bad is None for f in r9)
+        for mt, attr, text, line in undecided:
+            key = "state kept between messages (%s): each message is still processed as by a newly built definition" % (
+                "`self.%s`" % attr if attr else text[:80])
+            if failed:
+                L.ob(R, F, mt.name, key, "decided by message sequences through one definition object: no counterexample",
+                     "%s; the message-sequence witnesses exhibit a counterexample" % text, False, line)
+            elif open_:
+                L.deficits.append("r9_state: %s: %s - not decidable on the code, and the message-sequence witnesses could not be evaluated (%s)" % (
+                    mt.name, text, _short_txt(V.unknown_text() if V is not None else "witness evaluation failed", 200)))
+            elif mt.qual not in R9_EVALUATED:
+                L.deficits.append("r9_state: %s: %s - not decidable on the code, and no message-sequence witness uses objects of class %s" % (
+                    mt.name, text, mt.qual))
+            else:
+                L.ob(R, F, mt.name, key, "decided by message sequences through one definition object: no counterexample",
+                     "decided by message sequences through one definition object: no counterexample", True, line,
+                     note="%s; %d evaluations of message sequences agree with the reference" % (text, sum(f.n for f in r9)))
+                L.extra.setdefault("notes", []).append("r9_state: %s: %s; decided by the message-sequence witnesses" % (mt.name, text))
+    return n
 
 
 # ============================================================ concrete evaluator
@@ -3673,7 +4331,9 @@ class RSpare(RField):
         return (self.filler if self.filler is not None else b"\x00") * self.length(vals, b"")
 
     def __repr__(self):
-        return "Spare(%r, len=%d%s)" % (self.name, self.len, ", filler=%r" % self.filler if self.filler is not None else "")
+        return "Spare(%r%s%s%s%s)" % (self.name, ", len=%d" % self.len if self.len or self.getlen is None else "",
+                                      ", filler=%r" % self.filler if self.filler is not None else "", ", get_len=<cb>" if self.getlen else "",
+                                      ", get_pres=<cb>" if self.pres else "")
 
 
 class RBits(RField):
@@ -4610,6 +5270,155 @@ def w_seq_closure(lab, fams):
             fam.fail("a witness definition or its evaluation does not terminate (step budget exhausted)")
 
 
+# ---- message sequences through ONE definition object (C16.R9) ---------------------------------------------------
+
+def _reuse_defs():
+    """(definition, messages): every definition has a part whose length / presence the values decide, and the messages
+    of one list differ in exactly that part - first a message, then the same lengths again, then shorter, empty and
+    longer ones"""
+    plen = lambda v, d: v["plen"]
+    inner = lambda: REnv([RInt("Uint", "plen"), RSpare("pad", filler=b"\x2b", getlen=plen), RInt("Uint16LE", "crc")], name="Inner")
+    item = lambda: REnv([RInt("Uint", "n"), RSpare("fill", filler=b"\xa5", getlen=lambda v, d: v["n"]), RInt("Uint", "e")], name="Item")
+    tlv = lambda: [RInt("Uint", "t"), RInt("Uint16BE", "len"), RBuf("v", getlen=lambda v, d: v["len"])]
+    return [
+        (inner(), [{"plen": n, "crc": 0x1000 + n} for n in (4, 4, 0, 7, 1, 4, 2)]),
+        (REnv([RBits([("ver", 4, 1), ("al", 1, None), (None, 3, None)]), RSpare("align", 3, pres=lambda v: bool(v["al"])),
+               RInt("Uint", "ilen", getval=lambda v: 3 + v["inner"]["plen"]), REnvF(inner(), "inner", getlen=lambda v, d: v["ilen"]), RBuf("tail")], name="PDU"),
+         [{"ver": 1, "al": al, "ilen": 3 + n, "inner": {"plen": n, "crc": crc}, "tail": tail}
+          for al, n, crc, tail in ((1, 4, 0xbeef, b"\x01\x02"), (0, 4, 0x0102, b""), (1, 0, 0xffff, b"\xaa"), (0, 7, 0, b"\x55" * 5),
+                                   (1, 4, 0x1234, b"\x00"), (0, 1, 0x8001, b""))]),
+        (REnv([RInt("Uint", "a"), RInt("Uint", "b"), RSpare("p1", filler=b"\xaa", getlen=lambda v, d: v["a"]),
+               RSpare("p2", getlen=lambda v, d: v["b"]), RInt("Uint", "z")], name="TwoSpares"),
+         [{"a": a, "b": b, "z": 0x7f} for a, b in ((2, 3), (3, 2), (0, 5), (5, 0), (2, 3), (1, 1))]),
+        (REnv(tlv() + [RBuf("tail", 2)], name="TLV"),
+         [{"t": i, "len": len(v), "v": v, "tail": b"TT"} for i, v in enumerate((b"abcd", b"", b"xy", b"abcd", b"0123456789", b"q"))]),
+        (REnv([RBits([("flag", 1, None), ("n", 7, None)]), RBuf("opt", 2, pres=lambda v: bool(v["flag"])),
+               RSpare("sp", 2, filler=b"\x11", pres=lambda v: bool(v["n"] & 1)), RInt("Uint16BE", "w", pres=lambda v: v["n"] >= 64), RInt("Uint", "z")], name="Optional"),
+         [dict({"flag": fl, "n": n, "z": 9 + n}, **dict(([("opt", b"OK")] if fl else []) + ([("w", 0x0102 + n)] if n >= 64 else [])))
+          for fl, n in ((1, 65), (0, 2), (1, 2), (0, 65), (0, 64), (1, 65), (1, 3))]),
+        (REnv([RInt("Uint", "cnt"), RSeqF(REnv([RInt("Uint16BE", "k"), RInt("Int", "s")]), "items", getlen=lambda v, d: 3 * v["cnt"]), RBuf("trail")], name="Counted"),
+         [{"cnt": len(it), "items": it, "trail": tr} for it, tr in (([{"k": 1, "s": -1}, {"k": 65535, "s": 127}], b"tr"), ([], b""), ([{"k": 7, "s": 0}], b"x"),
+                                                                    ([{"k": 3, "s": 3}, {"k": 2, "s": 2}, {"k": 1, "s": 1}], b""), ([], b"only"))]),
+        (REnv([RInt("Uint", "hdr"), RSeqF(item(), "items")], name="SpareItems"),
+         [{"hdr": h, "items": [{"n": n, "e": 0x30 + k} for k, n in enumerate(ns)]} for h, ns in ((1, (3, 1, 0, 4)), (2, (0,)), (3, (2, 2)), (4, ()), (5, (1, 5, 1)))]),
+        (REnv([RInt("Int16BE", "x", mult=-1), RInt("Uint32LE", "y", offset=5), RBits([("a", 3, None), ("b", 5, None), ("c", 8, None)], "lsb"), RBuf("rest")], name="Plain"),
+         [{"x": x, "y": y, "a": a, "b": b, "c": c, "rest": r} for x, y, a, b, c, r in
+          ((5, 5, 7, 31, 255, b"rest"), (-7, 0x01020308, 0, 0, 0, b""), (32767, 6, 5, 10, 0x5a, b"\x00" * 7), (0, 5, 2, 21, 0xa5, b"r"))]),
+    ]
+
+
+def w_reuse(lab, fams):
+    """C16.R9 - decides the round-trip and length-exactness clauses of the property ("decoding the encoding of in-range
+    values returns those values, re-encoding a decoded message reproduces the canonical octets, and decoding consumes
+    exactly the octets the definition declares") for EVERY message that goes through a definition, not only the first
+    one: a protocol definition is built once (class-level STRUCT tuples) and all messages of a process are encoded and
+    decoded through the same field objects, and the items of one sequence through the same item definition.  The
+    law evaluated: what a definition object does with a message is what a newly built definition does with it -
+    whatever messages the object has processed before.  Message sequences whose variable parts (callback lengths
+    of spares / buffers / nested envelopes / sequences, optional fields) differ from message to message are encoded,
+    decoded and re-encoded through one object, in order, in reverse order and interleaved, and each outcome is
+    compared with the reference model, which has no state."""
+    m = lab.m
+    for ref, msgs in _reuse_defs():
+        fam = Family("C16.R9", "Envelope", "definition %r used for a sequence of %d messages whose variable parts differ: every message encodes to the "
+                     "octets its own values declare, decodes to its own values consuming exactly the datagram and re-encodes to the same octets, "
+                     "whatever messages the same definition object processed before (in order, in reverse order, encode and decode interleaved)"
+                     % (ref, len(msgs)))
+        fams.append(fam)
+        try:
+            pairs = []
+            for v in msgs:
+                enc = ref_out(lambda: ref.encode(v))
+                back = dec_pair(ref, enc[1]) if enc[0] == "ok" else None
+                if back is None or back[0] != "ok" or back[1][1] != len(enc[1]) or any(back[1][0].get(k) != x for k, x in v.items()):
+                    raise AnalysisError("internal: reference model is not an inverse pair on %r" % (ref,))
+                pairs.append((v, enc[1], back))
+            e = ref.build(lab)
+            for i, (v, octets, back) in enumerate(pairs):
+                fam.check("message #%d: to_bytes() of %s" % (i, _short_txt(v, 200)), lab.e_enc(e, v), ("ok", octets))
+            for i, (v, octets, back) in enumerate(pairs):
+                got = lab.e_dec(e, octets)
+                fam.check("message #%d: from_bytes(%r)" % (i, octets), got, back)
+                if got[0] == "ok":
+                    fam.check("message #%d: to_bytes() of what from_bytes(%r) returned" % (i, octets), lab.run(lambda: norm(lab.meth(e, "to_bytes"))), ("ok", octets))
+            e2 = ref.build(lab)
+            for i, (v, octets, back) in reversed(list(enumerate(pairs))):
+                j = (i + 1) % len(pairs)
+                fam.check("second object, message #%d decoded after message #%d: from_bytes(%r)" % (i, j, octets), lab.e_dec(e2, octets), back)
+                fam.check("second object, message #%d encoded after decoding message #%d: to_bytes() of %s" % (j, i, _short_txt(pairs[j][0], 200)),
+                          lab.e_enc(e2, pairs[j][0]), ("ok", pairs[j][1]))
+        except MachUnknown as ex:
+            fam.unknown = str(ex)
+        except PyRaise as ex:
+            fam.fail("a witness definition or its evaluation raises %s outside any modelled outcome" % ex.cls_name)
+        except MachTimeout:
+            fam.fail("a witness definition or its evaluation does not terminate (step budget exhausted)")
+    # --- one field object, used again and again ---------------------------------------------------------------
+    fam = Family("C16.R9", "Field", "one field object used for several messages: each to_bytes / from_bytes depends on that message's values and "
+                 "octets only (callback length, presence, value), not on what the object encoded or decoded before")
+    fams.append(fam)
+    try:
+        bylen = lambda v, d: v["n"]
+        cases = [
+            (RSpare("p", filler=b"ab", getlen=bylen), [{"n": n} for n in (3, 1, 0, 5, 3, 2)]),
+            (RSpare("p", getlen=bylen, pres=lambda v: v["n"] != 2), [{"n": n} for n in (2, 4, 2, 1, 4)]),
+            (RBuf("b", getlen=bylen), [{"n": n, "b": bytes(range(0x41, 0x41 + n))} for n in (2, 5, 0, 3, 5)]),
+            (RBuf("b"), [{"b": b} for b in (b"abcd", b"", b"xy", b"abcdefgh")]),
+            (RInt("Uint16BE", "w", pres=lambda v: bool(v["on"])), [dict({"on": on}, **({"w": w} if on else {})) for on, w in ((1, 0x0102), (0, 0), (1, 0xffff), (0, 0), (1, 0))]),
+            (RInt("Int32LE", "i", offset=-3, mult=4), [{"i": -3 + 4 * r} for r in (0, -1, 0x7fffffff, 1, -0x80000000, 0)]),
+            (RBits([("a", 3, None), ("b", 5, None), ("c", 8, None)]), [{"a": a, "b": b, "c": c} for a, b, c in ((7, 31, 255), (0, 0, 0), (5, 10, 0xa5), (0, 0, 0), (2, 21, 0x5a))]),
+            (RBits([("f12", 12, None), (None, 2, None), ("f2", 2, None)], "lsb"), [{"f12": a, "f2": b} for a, b in ((0xfff, 3), (0, 0), (0xabc, 1), (0x001, 2))]),
+        ]
+        for r, seq in cases:
+            f = r.build(lab)
+            steps = []
+            for v in seq:
+                enc = ref_out(lambda: r.to_bytes(dict(v)))
+                if enc[0] != "ok":
+                    raise AnalysisError("internal: reference model rejects a reuse witness of %r" % (r,))
+                steps.append((v, enc[1]))
+            for i, (v, octets) in enumerate(steps):
+                fam.check("%r, use #%d: to_bytes(%r)" % (r, i, v), lab.f_enc(f, v), ("ok", octets))
+            for i, (v, octets) in enumerate(steps):
+                data = octets + b"\xee\xee\xee"[:i % 3] if not (isinstance(r, RBuf) and r.getlen is None) else octets
+                ctx = {k: x for k, x in v.items() if k != r.name and not isinstance(r, RBits)}
+                fam.check("%r, use #%d: from_bytes(%r, %r)" % (r, i, ctx, data), lab.f_dec(f, data, ctx), ref_fdec(r, data, ctx))
+            for i, (v, octets) in reversed(list(enumerate(steps))):
+                fam.check("%r, use #%d again after the others: to_bytes(%r)" % (r, i, v), lab.f_enc(f, v), ("ok", octets))
+    except MachUnknown as ex:
+        fam.unknown = str(ex)
+    except PyRaise as ex:
+        fam.fail("a witness definition or its evaluation raises %s outside any modelled outcome" % ex.cls_name)
+    except MachTimeout:
+        fam.fail("a witness definition or its evaluation does not terminate (step budget exhausted)")
+    # --- the objects of one class do not share what they keep -----------------------------------------------------
+    fam = Family("C16.R9", "Field", "two field objects of one class used alternately (different fillers / lengths / parameters): neither sees what the "
+                 "other encoded or decoded")
+    fams.append(fam)
+    try:
+        bylen = lambda v, d: v["n"]
+        pairs = [(RSpare("p", filler=b"\x01", getlen=bylen), RSpare("q", filler=b"\x02\x03", getlen=bylen), [{"n": n} for n in (2, 2, 0, 3, 1)]),
+                 (RSpare("p", 2), RSpare("q", 2, filler=b"\xff"), [{}, {}, {}]),
+                 (RBuf("p", getlen=bylen), RBuf("q", getlen=lambda v, d: 2 * v["n"]), [{"n": n, "p": b"P" * n, "q": b"Q" * (2 * n)} for n in (1, 3, 0, 2)]),
+                 (RInt("Uint16BE", "p", offset=1), RInt("Uint16BE", "q", mult=-1), [{"p": 1 + r, "q": -r} for r in (0, 0xffff, 0x1234, 1)])]
+        for ra, rb, seq in pairs:
+            fa, fb = ra.build(lab), rb.build(lab)
+            for i, v in enumerate(seq):
+                for r, f in ((ra, fa), (rb, fb)):
+                    enc = ref_out(lambda: r.to_bytes(dict(v)))
+                    fam.check("%r next to %r, use #%d: to_bytes(%r)" % ((ra, rb)[r is rb], (rb, ra)[r is rb], i, v), lab.f_enc(f, v), enc)
+                    if enc[0] == "ok":
+                        ctx = {k: x for k, x in v.items() if k != r.name}
+                        fam.check("%r next to %r, use #%d: from_bytes(%r, %r)" % ((ra, rb)[r is rb], (rb, ra)[r is rb], i, ctx, enc[1] + b"\xee"),
+                                  lab.f_dec(f, enc[1] + b"\xee", ctx), ref_fdec(r, enc[1] + b"\xee", ctx))
+    except MachUnknown as ex:
+        fam.unknown = str(ex)
+    except PyRaise as ex:
+        fam.fail("a witness definition or its evaluation raises %s outside any modelled outcome" % ex.cls_name)
+    except MachTimeout:
+        fam.fail("a witness definition or its evaluation does not terminate (step budget exhausted)")
+
+
 # ---- definitions found in the toolkit (evaluated value-level against the block semantics) ------------------
 
 class RIntSpec(RInt):
@@ -4745,7 +5554,7 @@ def w_toolkit_defs(lab, fams):
             fam.fail("evaluating the definition does not terminate (step budget exhausted)")
 
 
-WITNESS_GROUPS = (w_bits, w_ints, w_length, w_nesting, w_errors, w_presence, w_ownership, w_seq_closure, w_toolkit_defs)
+WITNESS_GROUPS = (w_bits, w_ints, w_length, w_nesting, w_errors, w_presence, w_ownership, w_seq_closure, w_reuse, w_toolkit_defs)
 
 
 def run_witnesses(L, repo):
@@ -4912,6 +5721,11 @@ def commit_witnesses(L, V):
     if not V.error and not r8_open:
         L.floor("C16.R8", "item definitions with an optional / variable part evaluated in sequences", len(r8), 5)
         L.floor("C16.R8", "sequence round trips and truncations evaluated (items of different lengths)", sum(f.n for f in r8), 850)
+    # C16.R9: the code analysis (r9_state) decides where nothing is kept between messages; what it leaves open needs these
+    r9 = [f for f in V.fams if f.rule == "C16.R9"]
+    if not V.error and r9 and not any(f.unknown is not None and f.bad is None for f in r9):
+        L.floor("C16.R9", "definitions / field objects used for a sequence of different messages", len(r9), 10)
+        L.floor("C16.R9", "encodings / decodings through an object that processed other messages before", sum(f.n for f in r9), 400)
 
 
 def witness_verdict(L, repo):
@@ -4937,4 +5751,5 @@ def run(L, tier):
     L.stage(symbolic, L, V, r5_presence, repo, presence)
     L.stage(symbolic, L, V, r5_defaults, repo)
     L.stage(symbolic, L, V, r6_ownership, repo)
+    L.stage(r9_state, L, repo, [V])
     L.stage(commit_witnesses, L, V)
